@@ -39,6 +39,13 @@ def make_project(rng, i):
                  for k in range(rng.randint(1, 4))]
         text, _ = ctrl.render(lang, funcs, prefix="q%d%d" % (i, j))
         files["%s/gen%d_%d%s" % (rng.choice(["src", "lib", "src/inner", "tools"]), i, j, ctrl.EXT[lang])] = text
+    # leak bait: module A aliases a library under the name module B uses for something unrelated (and vice versa)
+    files["src/bait_a%d.py" % i] = (
+        "import re as rx\nimport logging as lg\n\n\ndef scan_a(lines, pat):\n    out = []\n    for line in lines:\n        if pat.match(line):\n            out.append(line)\n"
+        "    lg.info(out)\n    return out\n\n\ndef by_alias(lines):\n    return [line for line in lines if rx.match(\"x\", line)]\n")
+    files["src/bait_b%d.py" % i] = (
+        "import re as pat\n\n\ndef scan_b(lines, rx, lg):\n    out = []\n    for line in lines:\n        if rx.match(line):\n            out.append(line)\n        lg.write(line)\n"
+        "    return out\n\n\ndef by_alias_b(lines):\n    return [line for line in lines if pat.match(\"y\", line)]\n")
     files[".thailint.yaml"] = "dry:\n  enabled: true\n  min_duplicate_lines: 3\nfile-placement:\n  global_deny:\n    - pattern: \".*third.*\\\\.py$\"\n      reason: \"no third\"\n"
     return files
 
@@ -112,6 +119,8 @@ def run(ctx):
             for _ in range(2 if ctx.quick else 4):
                 lists.append(rng.sample(srcs, rng.randint(2, min(6, len(srcs)))))
             lists.append([rng.choice(srcs), "lib"])  # mixed file + directory (disjoint)
+            lists.append(["src/bait_a%d.py" % i, "src/bait_b%d.py" % i])
+            lists.append(["src/bait_b%d.py" % i, "src/bait_a%d.py" % i])
             lists.append(["tools", "lib"] if any(f.startswith("tools/") for f in srcs) else ["lib", "src/inner"])
             lib_targets = [".", "src", rng.choice(srcs), rng.choice([f for f in srcs if "other" in f])]
             cases.append({"files": files, "cmd": cmd, "dirs": [".", "src", "lib"], "lists": lists, "lib_targets": lib_targets, "id": "p%d:%s" % (i, cmd)})
